@@ -615,6 +615,7 @@ TYPED_ROUTES = [(0, 'enc', o_bytes), (1, 'hash_ok', o_flag), (2, 'rt_self', o_by
                 (4, 'todict', o_json), (5, 'dict_rt', o_bytes), (6, 'json_rt', o_bytes), (7, 'redeemer_ok', o_flag)]
 ROUTE_NAMES = {'raw': {n: s for n, s, _ in RAW_ROUTES}, 'typed': {n: s for n, s, _ in TYPED_ROUTES}}
 ROUTE_NAMES['typed'][9] = 'construct'
+ROUTE_NAMES['typed'][90] = 'in-place-edit-then-reencode'
 ROUTE_NAMES['raw'][99] = ROUTE_NAMES['typed'][99] = 'harness-reference-encoder'
 
 
